@@ -35,6 +35,40 @@ inductive Node where
   | other
   deriving Repr, Inhabited
 
+mutual
+/-- Decidable equality of trees (a nested inductive has no derived instance). -/
+def Node.decEq : (a b : Node) → Decidable (a = b)
+  | .text s, .text t =>
+    if h : s = t then isTrue (by rw [h]) else isFalse (by intro h'; injection h'; contradiction)
+  | .other, .other => isTrue rfl
+  | .elem n as cs, .elem n' as' cs' =>
+    if h1 : n = n' then
+      if h2 : as = as' then
+        match Node.decEqL cs cs' with
+        | isTrue h3 => isTrue (by rw [h1, h2, h3])
+        | isFalse h3 => isFalse (by intro h; injection h; contradiction)
+      else isFalse (by intro h; injection h; contradiction)
+    else isFalse (by intro h; injection h; contradiction)
+  | .text _, .other => isFalse (by intro h; cases h)
+  | .text _, .elem .. => isFalse (by intro h; cases h)
+  | .other, .text _ => isFalse (by intro h; cases h)
+  | .other, .elem .. => isFalse (by intro h; cases h)
+  | .elem .., .text _ => isFalse (by intro h; cases h)
+  | .elem .., .other => isFalse (by intro h; cases h)
+def Node.decEqL : (a b : List Node) → Decidable (a = b)
+  | [], [] => isTrue rfl
+  | [], _ :: _ => isFalse (by intro h; cases h)
+  | _ :: _, [] => isFalse (by intro h; cases h)
+  | x :: xs, y :: ys =>
+    match Node.decEq x y with
+    | isTrue h1 =>
+      match Node.decEqL xs ys with
+      | isTrue h2 => isTrue (by rw [h1, h2])
+      | isFalse h2 => isFalse (by intro h; injection h; contradiction)
+    | isFalse h1 => isFalse (by intro h; injection h; contradiction)
+end
+instance : DecidableEq Node := Node.decEq
+
 /-! ## Configuration: every field of `SanitizerConfig`, plus the private static lists -/
 
 inductive Mode where
